@@ -24,6 +24,12 @@ RESP_TB = [
 ]
 
 
+# The extracted functions recurse once per byte of a bulk payload: MiB-sized arguments need the
+# stack, and a large minor heap (every minor collection scans that deep stack).
+BIGSTACK = "ulimit -s unlimited 2>/dev/null || ulimit -s $(ulimit -Hs) 2>/dev/null; "
+OCAMLENV = {"OCAMLRUNPARAM": "s=32M"}
+
+
 def build(want_c03=False):
     ok, log = lib.ensure_runner(RESPRUN, "Extract/ExtractResp.v", ("resputil.ml", "resprun.ml"), ("respmodel",))
     if not ok:
@@ -191,7 +197,7 @@ def model_events(d, streams, tag="ev"):
     """streams: list of (id, bytes) -> {id: (events_text, executed(list of list of bytes), end)}"""
     inp, out = d / (tag + ".in"), d / (tag + ".model")
     inp.write_text("".join("%s\t%s\n" % (i, hexs(s)) for i, s in streams))
-    rc, log = lib.sh("%s events %s %s" % (lib.BUILD / RESPRUN, inp, out), cwd=d, timeout=1800)
+    rc, log = lib.sh(BIGSTACK + "exec %s events %s %s" % (lib.BUILD / RESPRUN, inp, out), cwd=d, timeout=1800, extra_env=OCAMLENV)
     if rc != 0:
         raise RuntimeError("resprun events failed: " + log[-800:])
     res = {}
@@ -201,17 +207,31 @@ def model_events(d, streams, tag="ev"):
     return res
 
 
+def digest(b):
+    """how resprun / harness_resp render a byte string: hex, or #<len>:<FNV-1a 64> above 256 bytes"""
+    if len(b) <= 256:
+        return b.hex()
+    h = 0xcbf29ce484222325
+    for c in b:
+        h = ((h ^ c) * 0x100000001b3) & 0xFFFFFFFFFFFFFFFF
+    return "#%d:%016x" % (len(b), h)
+
+
+def unhex_or_digest(a):
+    return a.encode() if a.startswith("#") else unhex(a)      # a long argument stays an opaque token
+
+
 def parse_executed(t):
     if t == "-":
         return []
-    return [[unhex(a) for a in c.split(",")] if c != "" else [] for c in t.split(";")]
+    return [[unhex_or_digest(a) for a in c.split(",")] if c != "" else [] for c in t.split(";")]
 
 
 def model_decode(d, items, tag="dec"):
     """items: list of (id, bytes written by the server) -> {id: (list of reply texts, leftover bytes)}"""
     inp, out = d / (tag + ".in"), d / (tag + ".out")
     inp.write_text("".join("%s\t%s\n" % (i, hexs(s)) for i, s in items))
-    rc, log = lib.sh("%s decode %s %s" % (lib.BUILD / RESPRUN, inp, out), cwd=d, timeout=1800)
+    rc, log = lib.sh(BIGSTACK + "exec %s decode %s %s" % (lib.BUILD / RESPRUN, inp, out), cwd=d, timeout=1800, extra_env=OCAMLENV)
     if rc != 0:
         raise RuntimeError("resprun decode failed: " + log[-800:])
     res = {}
